@@ -241,7 +241,34 @@ class Facts:
             canm = [tuple(x[:5]) for x in t['methods']]
             missm = [c for c in canm if c[0] not in {x[0] for x in curm}]
             extram = [x for x in curm if x[0] not in {c[0] for c in canm}]
+            # second fingerprint: the data members of the class the method works on (with renamed members under their old names);
+            # a new method that touches other members than the vanished one is a new helper, not a rename
+            canfp = {(x[0], x[1]): tuple(x[6]) for x in t['methods'] if len(x) > 6}
+            fnew = {new: old for (r_, new), old in fmap.items() if r_ == rname}
+            fnames = {x['name'] for x in r.get('fields', [])}
+
+            def fp_of(short, sig):
+                out_ = set()
+
+                def rec_(n):
+                    if isinstance(n, list):
+                        for x in n:
+                            rec_(x)
+                    elif isinstance(n, dict):
+                        if n.get('k') == 'member' and isinstance(n.get('q'), str) and n['q'].startswith(rname + '::') and n.get('name') in fnames:
+                            out_.add(fnew.get(n['name'], n['name']))
+                        for v in n.values():
+                            if isinstance(v, (dict, list)):
+                                rec_(v)
+                for f_ in defs:
+                    if f_['name'].split('::')[-1] == short and f_.get('sig', '()') == sig:
+                        rec_(f_.get('body'))
+                return tuple(sorted(out_))
             for new, old in pair(missm, extram, lambda m: m[1:], lambda x: x[1:]).items():
+                osig = [c for c in canm if c[0] == old]
+                nsig = [x for x in curm if x[0] == new]
+                if canfp and osig and nsig and (old, osig[0][1]) in canfp and canfp[(old, osig[0][1])] != fp_of(new, nsig[0][1]):
+                    continue
                 mmap[(rname, new)] = old
         for rel, fl in T.get('files', {}).items():
             path = os.path.join(self.repo, rel)
